@@ -145,12 +145,6 @@ theorem reprQuote_cases (s : Str) : reprQuote s = '\'' ∨ reprQuote s = '"' := 
   unfold reprQuote
   split <;> simp
 
-theorem unquote_wrap (q : Char) (body : Str) (hq : q = '\'' ∨ q = '"') :
-    unquote (q :: body ++ [q]) = some (q, body) := by
-  have h1 : (q = '\'' || q = '"') = true := by
-    rcases hq with h | h <;> subst h <;> decide
-  simp [unquote, h1, List.getLast?_append, List.dropLast_concat]
-
 /-- **`repr(str)` evaluates back to the string**, for every printability table -/
 theorem decodeStrLit_pyReprStr (pr : Char → Bool) (s : Str) : decodeStrLit (pyReprStr pr s) = some s := by
   unfold decodeStrLit pyReprStr
